@@ -940,6 +940,7 @@ func (s *subscriptionState) done() {
 	s.writeMu.Lock()
 	defer s.writeMu.Unlock()
 	close(s.completed)
+	verifEvent("sub.done", int64(s.id.ConnectionID), int64(s.id.SubscriptionID))
 }
 
 // complete delivers a "subscription done" signal to the downstream writer.
@@ -1038,6 +1039,7 @@ func (r *Resolver) executeSubscriptionUpdate(resolveCtx *Context, sub *subscript
 		return
 	}
 
+	verifYield("sub.update.beforeWriteLock", int64(sub.id.ConnectionID), int64(sub.id.SubscriptionID))
 	sub.writeMu.Lock()
 	if sub.removed.Load() {
 		sub.writeMu.Unlock()
@@ -1104,6 +1106,7 @@ func (r *Resolver) executeSubscriptionHeartbeat(sub *subscriptionState) {
 		return
 	}
 
+	verifYield("sub.heartbeat.beforeSend", int64(sub.id.ConnectionID), int64(sub.id.SubscriptionID))
 	if err := sub.sendHeartbeat(); err != nil {
 		_ = r.UnsubscribeSubscription(sub.id)
 		return
@@ -1199,6 +1202,7 @@ func (r *Resolver) addSubscription(triggerID uint64, add *addSubscription) error
 		r.registerSubscriptionLocked(trig, s)
 		// Execute the startup hooks in a goroutine to avoid holding the lock.
 		go func() {
+			verifYield("sub.join.beforeStartupHook", int64(add.id.ConnectionID), int64(add.id.SubscriptionID))
 			if err := r.executeStartupHooks(add, trig.updater); err != nil {
 				s.writeError(r.errorFormatter, add.ctx, err, add.resolve.Response)
 				_ = r.UnsubscribeSubscription(add.id)
@@ -1237,6 +1241,7 @@ func (r *Resolver) addSubscription(triggerID uint64, add *addSubscription) error
 			fmt.Printf("resolver:trigger:start:%d\n", triggerID)
 		}
 
+		verifYield("trigger.beforeStart", int64(triggerID), 0)
 		// The startup hook is blocking so it can reject the subscription before Source.Start.
 		// If either step fails, broadcast the error to all subs and tear down the trigger.
 		err := r.executeStartupHooks(add, trig.updater)
@@ -1250,10 +1255,12 @@ func (r *Resolver) addSubscription(triggerID uint64, add *addSubscription) error
 			for _, sub := range trig.snapshotSubscriptions() {
 				sub.writeError(r.errorFormatter, sub.ctx, err, sub.resolve.Response)
 			}
+			verifYield("trigger.startFailed", int64(triggerID), 0)
 			r.doneTriggerFromUpdater(triggerID)
 			return
 		}
 
+		verifYield("trigger.afterStart", int64(triggerID), 0)
 		r.markTriggerInitialized(triggerID)
 
 		if r.options.Debug {
@@ -1314,6 +1321,7 @@ func (r *Resolver) handleTriggerComplete(triggerID uint64) {
 
 	for _, s := range subs {
 		if !s.removed.Load() {
+			verifYield("sub.complete.afterRemovedCheck", int64(s.id.ConnectionID), int64(s.id.SubscriptionID))
 			s.complete()
 		}
 	}
@@ -1330,6 +1338,7 @@ func (r *Resolver) handleTriggerError(triggerID uint64, data []byte) {
 
 	for _, s := range subs {
 		if !s.removed.Load() {
+			verifYield("sub.error.afterRemovedCheck", int64(s.id.ConnectionID), int64(s.id.SubscriptionID))
 			s.error(data)
 		}
 	}
@@ -1491,6 +1500,7 @@ func (r *Resolver) handleTriggerUpdate(id uint64, data []byte) {
 	}
 
 	subs, filterErrors := trig.filterSubscriptions(data)
+	verifYield("sub.update.afterFilter", int64(id), 0)
 
 	for _, fe := range filterErrors {
 		fe.sub.writeError(r.errorFormatter, fe.ctx, fe.err, fe.response)
